@@ -125,6 +125,34 @@ Proof.
 Qed.
 Print Assumptions C01_bits_monotone.
 
+(* No bit of the initial state is ever lost (Ready apart, which an error return
+   clears): every Negotiate call sees all of them and so does the final state,
+   after any number of restarts and whatever kind of connection ([o_rw]: bare
+   wrapper, the session's own connection, a net.Conn with or without a
+   ConnectionState method) the restarting features returned. *)
+Theorem C01_initial_bits_kept :
+  forall c bits clear tls outs choices,
+  let r := run c bits clear tls outs choices in
+  (forall pre post f st o, trace r = pre ++ ENeg f st o :: post -> has st bits = true) /\
+  has (N.lor (r_bits r) st_Ready) bits = true.
+Proof.
+  exact (fun c bits clear tls outs choices =>
+    conj (neg_sees_initial_bits c bits clear tls outs choices)
+         (final_keeps_initial c bits clear tls outs choices)).
+Qed.
+Print Assumptions C01_initial_bits_kept.
+
+(* The source agrees (table regenerated on every run): every assignment to
+   s.state in session.go, features.go and negotiator.go is `|=`, except the one
+   `s.state &^= Ready` on negotiateSession's error return; the restart block
+   clears nothing. *)
+Theorem C01_state_bits_cleared_only_on_error :
+  forallb (fun w => write_adds w || write_is_ready_clear w) state_writes = true /\
+  length (filter write_is_ready_clear state_writes) = 1 /\
+  length (filter (fun w => negb (write_adds w)) state_writes) = 1.
+Proof. exact tbl_state_writes. Qed.
+Print Assumptions C01_state_bits_cleared_only_on_error.
+
 (* The converse half of "established only with the ready bit set": a run that
    ends in an error never reports Ready — whatever masks the features negotiated
    before the failing step returned. *)
